@@ -1005,6 +1005,50 @@ class LcGen(GovGen):
                 self.ops.append("restart")
                 self.tags.add("restart")
 
+    def scripted_stale_proposal_under_frozen_chain(self):
+        """a proposal about a service stays open (made while the service was available) while the world moves on: the appchain
+        is frozen (the service is paused), the chain's admin asks for the service's logout (the service is `logouting`); then the
+        old proposal is withdrawn or voted down, which puts the service back to the status the OLD proposal remembers.
+        Whatever that is, the service must not be usable under the frozen appchain — read back and probed, before and after
+        a restart"""
+        r = self.r
+        c = r.choice(["c1", "c2", "c4"])
+        svc = r.choice([x for x in SVC if x.startswith(c + ":")])
+        sponsor = r.choice(ADMINS)
+        self.submit(sponsor, f"service FreezeService s:{svc} s:reason", "service-freeze", "service", svc)
+        p_old = self.props[-1]
+        how = r.choice(["freeze", "freeze", "update-rejected"])
+        if how == "freeze":
+            self.submit(r.choice(ADMINS), f"appchain FreezeAppchain s:{c} s:reason", "appchain-freeze", "appchain", c)
+            self.vote_all(self.props[-1][0], "appchain", c, "approve")
+        else:
+            self.upd = getattr(self, "upd", 0) + 1
+            self.submit(f"ca{c[1]}", f"appchain UpdateAppchain s:{c} s:name-{c}-w{self.upd} s:desc x: s:@ca{c[1]} s:reason", "appchain-update", "appchain", c)
+            self.vote_all(self.props[-1][0], "appchain", c, "reject")
+        self.observe(svc)
+        self.submit(f"ca{c[1]}", f"service LogoutService s:{svc} s:reason", "service-logout", "service", svc)
+        self.observe(svc)
+        if r.random() < 0.5:
+            self.ops.append(f"block bvm {sponsor} gov WithdrawProposal s:{p_old[0]} s:reason")
+            self.ops.append(f"q prop {p_old[0]}")
+        else:
+            self.vote_all(p_old[0], "service", svc, "reject")
+        self.observe(svc)
+        self.tags.add(f"stale-proposal-under-frozen-chain:{how}")
+        other = "c2:s1" if c != "c2" else "c4:s1"
+        for rnd in range(2):
+            for f, t in ((svc, other), (other, svc)):
+                i = self.idx.get((f, t), 1)
+                self.observe(f)
+                self.observe(t)
+                self.ops.append(f"block ibtp ca{f[1]} {f} {t} {i} req 0 - ok")
+                self.observe(f)
+                self.observe(t)
+                self.idx[(f, t)] = i + 1
+            if rnd == 0:
+                self.ops.append("restart")
+                self.tags.add("restart")
+
     def scripted_logout_of_activating_chain(self):
         """a frozen appchain is being activated (proposal open) when its logout is proposed, which pauses the activation; the
         logout is voted down or withdrawn: the chain is back to `activating`, it was never activated, so none of its services
@@ -1232,8 +1276,10 @@ def gen_c16(rng, n, tier):
             g.scripted_logout_of_activating_chain()
         elif k0 < 0.9:
             g.scripted_rule_update_under_freeze()
-        elif k0 < 0.97:
+        elif k0 < 0.95:
             g.scripted_permission_update()
+        else:
+            g.scripted_stale_proposal_under_frozen_chain()
         for _ in range(r.randint(5, 14)):
             k = r.random()
             if k < 0.5:
